@@ -1,6 +1,18 @@
 """Sidecar: contracts on the real functions of /repo, keyed by file::qualname.  Nothing here edits /repo."""
 MODULES=['bits_reg']
 
+def rtl_specs():
+  from . import rtl_arb
+  return list(rtl_arb.SPECS)
+def rtl_spec(key):
+  for sp in rtl_specs():
+    if sp.key==key: return sp
+  raise KeyError(key)
+def rtl_extra(prop,tier,seed,repo,reg,known):
+  from .rtl_run import run_specs
+  return run_specs([sp for sp in rtl_specs() if prop in sp.prop_ids],tier,repo)
+
+
 FIX_COMMITS=['052e08e','9c79cb1']
 
 PROPERTIES={
@@ -17,4 +29,9 @@ PROPERTIES={
    note="Trusted: as C04, plus the unfolding axiom of the spec function parity (its definition) used in reduce_xor's loop invariant. concat is proved per arity 0..5 (loop unrolled), values/widths symbolic. clog2: bounded stand-in over N<=2^16 and 2^k+d (k<=1100,|d|<=2).",
    extra=['contracts.bits_reg:extra_checks_c05'],
    assumptions=["slice bounds are None, int or Bits; the slice step is None or int"]),
+ 'C19': dict(level='proof', engine='rtlvc',
+   claim="Proof per configuration (nreqs 2..8 quick, 2..16 thorough; unbounded in request/enable histories and values): with the invariant 'priority register is one-hot', every cycle of RoundRobinArbiter and RoundRobinArbiterEn satisfies: grants is zero or one-hot, inside reqs, non-zero iff reqs non-zero, equal to the first requester at or cyclically after the pointer; the pointer becomes rotl(grants) exactly when a grant happens (and en is high for the enabled variant), otherwise holds; reset restores pointer 1; a fairness ranking (distance from the pointer) strictly decreases for every passed-over requester. Also: re-running any block after evaluation changes nothing.",
+   note="The update-block ASTs of the real classes are executed symbolically over bit-vectors in the real schedule order (GenDAGPass + DynamicSchedulePass run for real); operator semantics = postconditions of the Bits contracts (C04/C05) via the transfer table of rtlvc/bvsem.py (self-checked by z3 for small widths). Trusted: AstHelper's read/write extraction used by the scheduler, the tick composition (C01/C07), rtlvc itself. nreqs is enumerated, not symbolic.",
+   extra=['contracts:rtl_extra'], require_cover=False,
+   assumptions=["structure parameter nreqs enumerated 2..8 (quick) / 2..16 (thorough); a proof for symbolic nreqs would need a parametric netlist = a hand-written model (refused)"]),
 }
